@@ -201,6 +201,11 @@ func (g *h2Gen) AllocateConn(c AllocateConnConfig) (net.Conn, error) {
 }
 
 func newH2World(vt *vhT, cfg ServerConfig, lis []*h2Listener, withAuth bool, withQuota bool) *h2World {
+	return newH2WorldWith(vt, cfg, lis, withAuth, withQuota, false)
+}
+
+// keepEH: use the EventHandler already present in cfg instead of the recorder
+func newH2WorldWith(vt *vhT, cfg ServerConfig, lis []*h2Listener, withAuth bool, withQuota bool, keepEH bool) *h2World {
 	w := &h2World{vt: vt, n: newSimNet(), ev: &evlog{}, lis: lis, relayV4: net.ParseIP("10.0.0.1").To4(),
 		relayV6: net.ParseIP("fd00::1"), cidIndex: map[uint32]int{}, peerUDP: map[string]*simPC{},
 		peerLis: map[string]*simListener{}, clients: map[string]*h2Client{}, relayOf: map[string]string{}, quotaAns: true, realm: "pion.ly"}
@@ -230,7 +235,7 @@ func newH2World(vt *vhT, cfg ServerConfig, lis []*h2Listener, withAuth bool, wit
 		}
 		return fmt.Sprintf("%d %s", lid, canonAddr(s))
 	}
-	cfg.EventHandler = EventHandler{
+	rec := EventHandler{
 		OnAllocationCreated: func(s, d net.Addr, p, u, r string, relay net.Addr, port int) {
 			w.relayOf[key(s, d)] = canonAddr(relay)
 			w.ev.add("alloc+ %s %s", key(s, d), canonAddr(relay))
@@ -248,6 +253,9 @@ func newH2World(vt *vhT, cfg ServerConfig, lis []*h2Listener, withAuth bool, wit
 		OnChannelDeleted: func(s, d net.Addr, p, u, r string, relay, peer net.Addr, n uint16) {
 			w.ev.add("chan- %s %d@%s", key(s, d), n, canonAddr(peer))
 		},
+	}
+	if !keepEH {
+		cfg.EventHandler = rec
 	}
 	for i, l := range lis {
 		lid := i
@@ -709,7 +717,9 @@ type h2Key struct {
 	addr net.Addr
 }
 
-func (w *h2World) shutdown() {
+func (w *h2World) shutdown() { w.shutdownWith(synctest.Wait) }
+
+func (w *h2World) shutdownWith(settle func()) {
 	_ = w.srv.Close()
 	for _, c := range w.clients {
 		if c.conn != nil {
@@ -730,7 +740,7 @@ func (w *h2World) shutdown() {
 	for _, pc := range w.pendDial {
 		_ = pc.conn.Close()
 	}
-	synctest.Wait()
+	settle()
 }
 
 func sortStrings(s []string) { sort.Strings(s) }
